@@ -251,20 +251,31 @@ func c16LookupExec(ctx context.Context, cfg blockrelay.ExecutionConfigurator) c1
 
 // c16ValidDoc is a complete, benign document of the given version naming one relay.
 func c16ValidDoc(version string, relay string) string {
+	return c16ValidDocKeyed(version, relay, "none")
+}
+
+// c16ValidDocKeyed: the same with a "public_key" for the relay (version 2 only; Robustness!RelayKeys).
+func c16ValidDocKeyed(version string, relay string, pk string) string {
 	addr, _ := json.Marshal(relay)
+	entry := "{}"
+	if key := c16RelayPubkey(pk); key != nil {
+		entry = fmt.Sprintf(`{"public_key":"%s"}`, key.String())
+	}
 	if version == "v1" {
 		builder := fmt.Sprintf(`"builder":{"enabled":true,"grace":"100","relays":[%s]}`, addr)
 		return fmt.Sprintf(`{"default_config":{"fee_recipient":"%s","gas_limit":"30000000",%s},"proposer_config":{"%s":{"fee_recipient":"%s",%s}}}`,
 			c16Fee1, builder, c16AccountPubkey(1).String(), c16Fee2, builder)
 	}
-	return fmt.Sprintf(`{"version":2,"fee_recipient":"%s","gas_limit":"30000000","grace":"0","min_value":"0","relays":{%s:{}},`+
-		`"proposers":[{"proposer":"^Test wallet/Interop 1$","fee_recipient":"%s"}]}`, c16Fee1, addr, c16Fee2)
+	return fmt.Sprintf(`{"version":2,"fee_recipient":"%s","gas_limit":"30000000","grace":"0","min_value":"0","relays":{%s:%s},`+
+		`"proposers":[{"proposer":"^Test wallet/Interop 1$","fee_recipient":"%s"}]}`, c16Fee1, addr, entry, c16Fee2)
 }
 
 // c16WholeDoc builds the content of the configuration source for a whole-document shape
 // (Robustness!DocShapes); relay is the address written into the valid documents.
-func c16WholeDoc(kind string, relay string) string {
-	v2, v1 := c16ValidDoc("v2", relay), c16ValidDoc("v1", relay)
+func c16WholeDoc(kind string, relay string) string { return c16WholeDocKeyed(kind, relay, "none") }
+
+func c16WholeDocKeyed(kind string, relay string, pk string) string {
+	v2, v1 := c16ValidDocKeyed("v2", relay, pk), c16ValidDoc("v1", relay)
 	switch kind {
 	case "null":
 		return "null"
